@@ -532,8 +532,25 @@ pub fn random_tree(rng: &mut Rng, depth: u32) -> ST {
 // ---- mutations ---------------------------------------------------------------------------------
 
 /// wire tokens of a data schema (used to avoid swapping fields that are wire-identical)
+/// What the comparison looks at: the tree without memory-layout annotations and without the names of structs,
+/// enums and fields (variant names and discriminants are compared). Two subtrees with equal `wire_sig` are
+/// interchangeable on the wire, so swapping them is not a wire-relevant change.
 fn wire_sig(s: &ST) -> String {
-    format!("{:?}", to_schema(s, false))
+    fn fields(fs: &[SF]) -> String {
+        fs.iter().map(|f| wire_sig(&f.value)).collect::<Vec<_>>().join(",")
+    }
+    match s {
+        ST::Struct { fields: f, .. } => format!("S{{{}}}", fields(f)),
+        ST::Enum { variants, dsize, .. } => format!("E{}{{{}}}", dsize, variants.iter().map(|v| format!("{}={}({})", v.name, v.discr, fields(&v.fields))).collect::<Vec<_>>().join("|")),
+        ST::Vector(i, _) => format!("V[{}]", wire_sig(i)),
+        ST::Array(i, n) => format!("A{}[{}]", n, wire_sig(i)),
+        ST::Opt(i) => format!("O[{}]", wire_sig(i)),
+        ST::Boxed(i) => format!("B[{}]", wire_sig(i)),
+        ST::Slice(i) => format!("L[{}]", wire_sig(i)),
+        ST::Reference(i) => format!("R[{}]", wire_sig(i)),
+        ST::Str(_) => "str".into(),
+        other => format!("{:?}", to_schema(other, false)),
+    }
 }
 
 /// All single wire-relevant mutations of the tree (applied at every data node; trait definitions are leaves).
